@@ -8,14 +8,14 @@ C06 for TSP: `check_solution_validity` (sorted actions == arange(width of the ac
 -/
 import Rl4co.Proofs.TspfamTsp
 import Rl4co.Proofs.Sort
+import Rl4co.Proofs.TspfamParams
 
 namespace Rl4co.Tsp
 
 /-- **C06 (TSP), completeness.** -/
 theorem check_complete (i : Inst) {as : List Nat} (hf : Spec.Tsp.Feasible i.n as) :
     check i as = true := by
-  simp only [check]
-  rw [hf.length_eq]
+  rw [check_eq, hf.length_eq]
   exact (sortedIsRange_iff i.n as).mpr ((Spec.Tsp.feasible_iff_perm i.n as).mp hf)
 
 /-- full soundness, as the property demands it -/
@@ -26,7 +26,7 @@ def check_sound_statement : Prop :=
 theorem check_sound_counterexample : ¬ check_sound_statement := by
   intro h
   have hc : check ⟨5, fun _ _ => 0⟩ [0, 1, 2] = true := by
-    simp only [check]
+    rw [check_eq]
     exact (sortedIsRange_iff 3 [0, 1, 2]).mpr (List.Perm.refl _)
   have := (h ⟨5, fun _ _ => 0⟩ [0, 1, 2] hc).once 4 (by decide)
   simp at this
@@ -34,14 +34,19 @@ theorem check_sound_counterexample : ¬ check_sound_statement := by
 /-- **C06 (TSP), soundness for full-width action lists.** -/
 theorem check_sound_partial (i : Inst) {as : List Nat} (hlen : as.length = i.n)
     (hc : check i as = true) : Spec.Tsp.Feasible i.n as := by
-  simp only [check, hlen] at hc
+  rw [check_eq, hlen] at hc
   exact (Spec.Tsp.feasible_iff_perm i.n as).mpr ((sortedIsRange_iff i.n as).mp hc)
 
 /-- what acceptance means in general: a permutation of `0..L-1`, `L` the width of the action list -/
 theorem check_iff (i : Inst) (as : List Nat) :
     check i as = true ↔ Spec.Tsp.Feasible as.length as := by
-  simp only [check]
-  rw [sortedIsRange_iff, Spec.Tsp.feasible_iff_perm]
+  rw [check_eq, sortedIsRange_iff, Spec.Tsp.feasible_iff_perm]
+
+/-- **C06 (TSP), exact characterisation**: feasible ⇔ accepted by the checker AND of full width.  (The width
+clause is what the checker itself does not enforce — the known finding.) -/
+theorem feasible_iff_check_and_width (i : Inst) (as : List Nat) :
+    Spec.Tsp.Feasible i.n as ↔ (check i as = true ∧ as.length = i.n) :=
+  ⟨fun hf => ⟨check_complete i hf, hf.length_eq⟩, fun ⟨hc, hl⟩ => check_sound_partial i hl hc⟩
 
 /-- Non-vacuity. -/
 example : check ⟨3, fun _ _ => 0⟩ [2, 0, 1] = true :=
